@@ -267,8 +267,13 @@ def build():
     STEP_DT = "(duration(" + CUR + ") / self.show_config.speed)"
     WILL_SCHEDULE = "(not self.show_config.manual_advance and " + STEP_DT + " > 0 and not pause_after_step)"
     COMPLETES = "(old(self.next_step_index) >= self._total_steps and old(self.loops) == 0)"
+    INV_SC = ("INV-SC: a start callback that has not run yet belongs to a show whose start is still pending (established by "
+              "_start_play, kept by every request - WS -, consumed by _start_now)",
+              "implies(self.start_callback is not None and not self._stopped, ghost.n_live == 1 and "
+              "self._delay_handler is not None)")
     C.fn("RunningShow.stop",
          loops={0: LoopSpec(invariant=[], unroll=True)},
+         requires=[INV_SC],
          ensures=[("stopped", "self._stopped"),
                   ("C1: stop is idempotent: a stopped show does nothing more",
                    "implies(old(self._stopped), n_stop_cb() == 0 and n_posts() == 0 and n_callbacks() == 0)"),
@@ -276,8 +281,8 @@ def build():
                    "implies(not old(self._stopped), stopped_all_players())"),
                   ("C3: the pending step is cancelled", "ghost.n_live == 0 and self._delay_handler is None or "
                    "old(self._stopped)"),
-                  ("C5: a show stopped before its (synchronised / paused) start still runs its start callback - it "
-                   "stops the show this one was to replace - exactly once, whether or not a start timer is pending",
+                  ("C5: a show stopped before its (synchronised) start still runs its start callback - it stops the show this "
+                   "one was to replace - exactly once (INV-SC: such a show still has its start pending)",
                    "implies(not old(self._stopped) and old(self.start_callback) is not None, "
                    "start_callback_ran(old(self.start_callback)) and self.start_callback is None)"),
                   ("C4: the stopped events are posted once",
@@ -384,7 +389,7 @@ def build():
                    ("sync interval is not negative", "self.show_config.sync_ms >= 0"),
                    ("a loaded show has at least one step", "len(self.show_steps) >= 1 and self.show_config.speed > 0"),
                    ("nobody holds state yet", "len(self._players) == 0 and not self._stopped")],
-         ensures=[("a synchronised show starts on the next multiple of sync_ms and only there",
+         ensures=[INV_SC, ("a synchronised show starts on the next multiple of sync_ms and only there",
                    "implies(self.show_config.sync_ms != 0, n_sched() == 1 and n_play() == 0)"),
                   ("Y1: the planned start of a synchronised show lies EXACTLY on the sync grid (shows with the same "
                    "sync_ms requested at different instants start together), at the first grid point after the request",
